@@ -362,7 +362,8 @@ def _op_chain(f: FuncInfo, leaf: ast.AST, stop: ast.AST) -> Optional[List[Tuple[
         if isinstance(par, ast.Attribute) and par.value is cur:
             gp = f.module.parents.get(par)
             if isinstance(gp, ast.Call) and gp.func is par:
-                ops.append((f".{par.attr}()", gp))
+                limited = par.attr in ("split", "rsplit") and (len(gp.args) > 1 or any(k.arg == "maxsplit" for k in gp.keywords))
+                ops.append((f".{par.attr}({'.., n' if limited else ''})", gp))
                 cur = gp
                 par = f.module.parents.get(cur)
                 continue
@@ -376,7 +377,10 @@ def _op_chain(f: FuncInfo, leaf: ast.AST, stop: ast.AST) -> Optional[List[Tuple[
             ops.append((type(par.op).__name__.lower(), par))
         elif isinstance(par, ast.BoolOp):
             others = [norm(v) for v in par.values if v is not cur]
-            ops.append((f"{type(par.op).__name__.lower()} {'/'.join(others)[:30]}", par))
+            # `value or ()` / `value or None`: nothing given stays nothing - not an operation on the value
+            empty = all(o in ("()", "[]", "{}", "None", "''", "set()", "tuple()", "list()", "dict()") for o in others)
+            if not (isinstance(par.op, ast.Or) and empty):
+                ops.append((f"{type(par.op).__name__.lower()} {'/'.join(others)[:30]}", par))
         elif isinstance(par, ast.BinOp):
             ops.append((f"binop {type(par.op).__name__}", par))
         elif isinstance(par, (ast.JoinedStr, ast.FormattedValue)):
@@ -1064,13 +1068,13 @@ CONTENT_METHODS = {"lower", "upper", "strip", "lstrip", "rstrip", "casefold", "t
                    "translate", "encode", "decode", "format", "zfill", "center", "ljust", "rjust", "removeprefix",
                    "removesuffix", "expandtabs", "split", "rsplit", "splitlines", "partition", "rpartition", "join",
                    "sort", "reverse"}
-CONTENT_FUNCS = {"sorted", "reversed", "set", "frozenset", "str.lower", "str.upper", "str.strip", "re.escape", "repr", "ascii",
+CONTENT_FUNCS = {"max", "min", "abs", "round", "sorted", "reversed", "set", "frozenset", "str.lower", "str.upper", "str.strip", "re.escape", "repr", "ascii",
                  "os.path.normpath", "os.path.abspath", "os.path.basename", "unidecode", "unicodedata.normalize"}
 # operations applied today, each confirmed by reading cli.py (option -> operation -> why it is part of the documented mapping)
 VALUE_OPS_OK: Dict[str, Dict[str, str]] = {
-    "code_generator": {".rsplit()": "dotted path of the generator class is split into module and attribute",
+    "code_generator": {".rsplit(.., n)": "dotted path of the generator class is split into module and attribute (at the last dot)",
                        ".rpartition()": "the same split, spelled with rpartition"},
-    "code_generator_kwargs": {".split()": "NAME=VALUE pairs", ".partition()": "NAME=VALUE pairs, spelled with partition",
+    "code_generator_kwargs": {".split(.., n)": "NAME=VALUE pairs (at the first =)", ".partition()": "NAME=VALUE pairs, spelled with partition",
                               "[slice]": "quotes around a quoted value are removed"},
     "dict_keys_regex": {"string-building": "documented anchoring of command-line patterns (RX-1 decides its shape)"},
     "merge": {".split()": "policy_argument syntax", ".partition()": "policy_argument syntax, spelled with partition",
@@ -1084,10 +1088,12 @@ ARGPARSE_TYPES_OK = {None, "str", "int", "float", "Path", "pathlib.Path"}
 
 
 def _content_op(d: str) -> Optional[str]:
+    if d.startswith("or "):
+        return "or-fallback"        # `value or default`: a value that is false (0, "", an empty list) is replaced
     if d == ".format()":
         return "string-building"
-    if d.startswith(".") and d.endswith("()"):
-        return d if d[1:-2] in CONTENT_METHODS else None
+    if d.startswith(".") and d.endswith(")") and "(" in d:
+        return d if d[1:d.index("(")] in CONTENT_METHODS else None
     if d.endswith(".join(..)"):
         return ".join()"
     if d.endswith("(..)"):
@@ -1605,6 +1611,32 @@ def rule_sibconv1(ctx: Ctx) -> RuleResult:
                   f"`--code-generator-kwargs {kname}=false` means the same for every framework whose generator takes `{kname}`",
                   VIOLATED, f"`{kname}` is converted with {want} for {sorted(by_fw)} but passed as the raw string for `{name}`: the "
                             f"non-empty string \"false\" is truthy there", node.lineno)
+    # every on/off keyword (a constructor parameter whose default is True / False) of a framework's generator is converted:
+    # on the command line its value is text, and any non-empty text is true
+    for name, (cls_, kws, node) in sorted(entries.items()):
+        if cls_ is None:
+            continue
+        flags = {}
+        for k in prog.mro(cls_):
+            for init in k.methods.get("__init__", []):
+                a = init.node.args
+                pos = a.posonlyargs + a.args
+                for p_, d_ in zip(pos[len(pos) - len(a.defaults):], a.defaults):
+                    if isinstance(d_, ast.Constant) and isinstance(d_.value, bool):
+                        flags.setdefault(p_.arg, k.name)
+                for p_, d_ in zip(a.kwonlyargs, a.kw_defaults):
+                    if d_ is not None and isinstance(d_, ast.Constant) and isinstance(d_.value, bool):
+                        flags.setdefault(p_.arg, k.name)
+        for kname, owner in sorted(flags.items()):
+            if not accepts(cls_, kname):
+                continue
+            rr.instances += 1
+            ok = kname in kws
+            rr.ob(CLI, f"Cli.MODEL_GENERATOR_MAPPING[{name!r}]", f"{kname}=" + (kws.get(kname) or "<no converter>"),
+                  f"`--code-generator-kwargs {kname}=false` switches `{kname}` (an on/off parameter of {owner}) off",
+                  DISCHARGED if ok else VIOLATED, "converted" if ok else
+                  f"`{kname}` reaches {cls_.name} as the text given on the command line: \"false\" is a non-empty string and therefore true",
+                  node.lineno)
     rr.instances += 1
     rr.ob(CLI, "Cli.MODEL_GENERATOR_MAPPING", f"{len(entries)} frameworks, converters for {sorted(convs)}",
           "converters are attached consistently", DISCHARGED, "checked", table.lineno)
@@ -1613,3 +1645,16 @@ def rule_sibconv1(ctx: Ctx) -> RuleResult:
 
 def rule_reset1_structure(ctx: Ctx) -> RuleResult:
     return rule_reset1(ctx, only_attrs=["structure_fn"], rule_id="RESET-1s")
+
+
+def rule_optflow6_lit(ctx: Ctx) -> RuleResult:
+    return rule_optflow6(ctx, only=["max_strings_literals"], rule_id="OPTFLOW-6l")
+
+
+def rule_optflow6_merge(ctx: Ctx) -> RuleResult:
+    return rule_optflow6(ctx, only=["merge"], rule_id="OPTFLOW-6m")
+
+
+def rule_optflow_strconv(ctx: Ctx) -> RuleResult:
+    return _optflow_subset(ctx, "OPTFLOW-sc", "--strings-converters reaches post_init_converters, whatever the framework",
+                           ["strings_converters"])
